@@ -432,8 +432,8 @@ pub fn check_case(c: &Case) -> Result<Report, Violation> {
     {
         // INPUT OUTPUT form, onto a path where a longer file already exists
         let scratch = cli::Scratch::new();
-        let inp = scratch.file("puzzle.txt", c.puzzle.as_bytes());
-        let outp = scratch.stale("formula.txt");
+        let inp = scratch.file(&cli::Scratch::awkward("puzzle.txt"), c.puzzle.as_bytes());
+        let outp = scratch.stale(&cli::Scratch::awkward("formula.txt"));
         let out = cli::run(
             &cli::bin("sudoku_gen"),
             &[inp.to_string_lossy().into_owned(), outp.to_string_lossy().into_owned(), "--root".into(), c.root.to_string()],
